@@ -85,6 +85,10 @@ func C14(r *ev.Report) {
 
 func init() {
 	Replayers["C14"] = func(c Case) (bool, string) {
+		if c["op"] == "persist" {
+			return Replayers["C10"](c)
+		}
+
 		key, detail := c14Case(unhx(c["s"]))
 		return key == "", key + " " + detail
 	}
